@@ -34,7 +34,8 @@ func (nopMetrics) OnLoadOffset(time.Duration, error) {}
 var variant atomic.Uint32
 
 // SetVariant selects, from a hash of the running case, which optional SQLite
-// store features (logger, metrics hook) are switched on for stores opened
+// store features (logger, metrics hook, a busy timeout of its own, explicit
+// auto-migration) are switched on for stores opened
 // through OpenSQLite: they must not change the store's behaviour.  Being a
 // function of the case, a replay opens the same variant.
 func SetVariant(caseHash string) {
@@ -54,6 +55,12 @@ func VariantOptions() []sqlite.Option {
 	}
 	if v&2 != 0 {
 		opts = append(opts, sqlite.WithMetricsHook(nopMetrics{}))
+	}
+	if v&4 != 0 {
+		opts = append(opts, sqlite.WithBusyTimeout(250*time.Millisecond))
+	}
+	if v&8 != 0 {
+		opts = append(opts, sqlite.WithAutoMigrate(true))
 	}
 	return opts
 }
